@@ -300,3 +300,67 @@ func VP_C06_sizes() {
 	}
 	vp.Cover("end")
 }
+
+// destinations used more than once: an optional field decoded as absent and
+// then, into the same variable, as present - for value types whose decoder
+// depends on what the destination holds (FixedBitSet length, Ary/NBTField
+// destination pointers) - yields the present value with exact counts.
+func VP_C06_option_history() {
+	switch vp.Choice(3) {
+	case 0:
+		d := Option[FixedBitSet, *FixedBitSet]{Val: NewFixedBitSet(16)}
+		r1 := bytes.NewReader([]byte{0})
+		n, err := d.ReadFrom(r1)
+		vp.Assert(err == nil && n == 1 && !bool(d.Has), "absent value: one byte")
+		x, y := vp.Byte(), vp.Byte()
+		r2 := bytes.NewReader([]byte{1, x, y, 0x77})
+		n, err = d.ReadFrom(r2)
+		vp.Assert(err == nil && n == 3 && r2.Len() == 1, "present value after an absent one: exact count")
+		vp.Assert(bool(d.Has) && len(d.Val) == 2 && d.Val[0] == x && d.Val[1] == y, "present value after an absent one: value")
+	case 1:
+		var dst []VarInt
+		d := OptionDecoder[Ary[VarInt], *Ary[VarInt]]{Val: Ary[VarInt]{Ary: &dst}}
+		n, err := d.ReadFrom(bytes.NewReader([]byte{0}))
+		vp.Assert(err == nil && n == 1 && !bool(d.Has), "absent value: one byte")
+		x := vp.Byte()
+		vp.Assume(x < 0x80)
+		r2 := bytes.NewReader([]byte{1, 2, x, 5, 0x77})
+		n, err = d.ReadFrom(r2)
+		vp.Assert(err == nil && n == 4 && r2.Len() == 1, "present value after an absent one: exact count")
+		vp.Assert(bool(d.Has) && len(dst) == 2 && dst[0] == VarInt(x) && dst[1] == 5, "present value after an absent one: value")
+	default:
+		var s String
+		var k Int
+		d := OptionDecoder[Tuple, *Tuple]{Val: Tuple{&s, &k}}
+		n, err := d.ReadFrom(bytes.NewReader([]byte{0}))
+		vp.Assert(err == nil && n == 1 && !bool(d.Has), "absent value: one byte")
+		x := vp.Byte()
+		r2 := bytes.NewReader([]byte{1, 1, x, 0, 0, 0, 9, 0x77})
+		n, err = d.ReadFrom(r2)
+		vp.Assert(err == nil && n == 7 && r2.Len() == 1, "present value after an absent one: exact count")
+		vp.Assert(bool(d.Has) && s == String([]byte{x}) && k == 9, "present value after an absent one: value")
+	}
+	vp.Cover("end")
+}
+
+// packets are values: a packet built by Marshal is not changed by building
+// further packets (no aliasing of pooled builder memory), with pooled buffers
+// always handed out again.
+func VP_C06_marshal_held() {
+	vp.PoolMode(1)
+	a, b := VarInt(vp.Int32()), String(vp.Bytes(vp.Choice(3)))
+	p1 := Marshal(int32(1), a, b)
+	keep := append([]byte{}, p1.Data...)
+	c := Long(vp.Int64())
+	p2 := Marshal(int32(2), c, String(vp.Bytes(2)))
+	p3 := Marshal(int32(3), Boolean(vp.Bool()))
+	vp.Assert(p1.ID == 1 && p2.ID == 2 && p3.ID == 3, "ids")
+	vp.Assert(string(p1.Data) == string(keep), "an earlier packet is unchanged by later Marshal calls")
+	var da VarInt
+	var db String
+	vp.Assert(p1.Scan(&da, &db) == nil && da == a && db == b, "an earlier packet still scans to its fields")
+	var dc Long
+	var ds String
+	vp.Assert(p2.Scan(&dc, &ds) == nil && dc == c, "the second packet scans to its fields")
+	vp.Cover("end")
+}
